@@ -73,7 +73,7 @@ Steered ==
      \* (likewise an update refused for a value another entity holds: the rejection that is raised after the write)
      /\ (last'.res = "fail" /\ kn[1] \notin {"callerError", "commit"} /\ ~(kn[1] \in {"deleteTeam", "deleteWhere"} /\ "system" \in last'.app)
            /\ ~(kn[1] = "update" /\ last'.app = {"dup"}))
-           => RandomElement(1..FailOneIn) = 1
+           => RandomElement(1..(IF last'.app = {"notfound"} THEN 8 * FailOneIn ELSE FailOneIn)) = 1    \* (calls on absent ids are the least informative refusals)
 
 \* (the simulator evaluates invariants on every successor it generates, not only on the one it picks:
 \*  a behaviour is therefore printed from the single successor of its last state)
